@@ -128,7 +128,7 @@ fn c12_cps_inverted_k1() {
     let n = inverted_body::<1>();
     kani::cover!(n == 0, "the full set inverts to the empty set");
 }
-// @verif props=C12,C15 tier=quick timeout=1800 unwind=6 bound="inverted() of any well-formed set of 2 intervals" funcs="CodePointSet::inverted,inverted_interval_count"
+// @verif props=C12,C15 tier=extended timeout=1800 mem=30 unwind=6 bound="inverted() of any well-formed set of 2 intervals" funcs="CodePointSet::inverted,inverted_interval_count"
 #[kani::proof]
 #[kani::unwind(6)]
 fn c12_cps_inverted_k2() {
